@@ -32,6 +32,7 @@ import (
 	"math/rand"
 	"os"
 	"os/exec"
+	"os/signal"
 	"path/filepath"
 	"regexp"
 	"runtime"
@@ -86,6 +87,9 @@ type childOp struct {
 	// directory read-only (0555) and its files writable by everybody (0666), as on a device whose configuration partition
 	// is mounted for one user and used by another
 	Unpriv bool `json:"unprivileged,omitempty"`
+	// FSizeLimit > 0: the child lowers its RLIMIT_FSIZE to that many bytes (SIGXFSZ ignored) before the operation: a
+	// write(2) beyond the limit stores its first part and then fails (what a full disk or a quota does to a large write)
+	FSizeLimit uint64 `json:"file_size_limit,omitempty"`
 }
 
 func accessories(variant string) (*accessory.Accessory, []*accessory.Accessory) {
@@ -157,6 +161,13 @@ func childMain(arg string) {
 		d = db.NewDatabaseWithStorage(st)
 	}
 
+	if op.FSizeLimit > 0 {
+		signal.Ignore(syscall.SIGXFSZ)
+		if err := syscall.Setrlimit(syscall.RLIMIT_FSIZE, &syscall.Rlimit{Cur: op.FSizeLimit, Max: op.FSizeLimit}); err != nil {
+			fmt.Fprintln(os.Stderr, "child: setrlimit:", err)
+			os.Exit(5)
+		}
+	}
 	syscall.Access(markerBegin, 0)
 	switch op.Op {
 	case "set":
@@ -1516,6 +1527,33 @@ func main() {
 		scs = append(scs, more...)
 		r.Count("scenarios_with_a_failing_first_write", len(more))
 	}
+	// the same writes under a file size limit of 64 bytes: the write of a longer value stores 64 bytes and fails
+	{
+		var more []*scenario
+		picked := map[string]int{}
+		for _, sc := range scs {
+			if sc.Op.TmpDir != "" || sc.Links || sc.FaultErr != "" || sc.Kind == "transport-config" || sc.Kind == "delete" || sc.Kind == "delete-entity" {
+				continue
+			}
+			if sc.Kind == "set" && len(sc.Op.Value) <= 64 {
+				continue
+			}
+			lim := 2
+			if sc.Kind == "set" {
+				lim = r.Pick(4, 12)
+			}
+			if picked[sc.Kind] >= lim {
+				continue
+			}
+			picked[sc.Kind]++
+			c := *sc
+			c.ID = sc.ID + "+file-size-limit-64"
+			c.Op.FSizeLimit = 64
+			more = append(more, &c)
+		}
+		scs = append(scs, more...)
+		r.Count("scenarios_under_a_file_size_limit", len(more))
+	}
 	// the same writes by a process without root on a read-only storage directory whose files it may write
 	if traversable(root) {
 		var more []*scenario
@@ -1642,7 +1680,7 @@ func main() {
 				writeOp(bdir, sc.Op, opf)
 				tf := filepath.Join(sc.dir, "base.strace")
 				res := runChild(opf, tf, "")
-				if res.TimedOut || (res.ExitCode != 0 && !(sc.Op.Unpriv && res.ExitCode == 3)) {
+				if res.TimedOut || (res.ExitCode != 0 && !((sc.Op.Unpriv || sc.Op.FSizeLimit > 0) && res.ExitCode == 3)) {
 					sc.skipped = fmt.Sprintf("baseline run failed: %+v", res)
 					return
 				}
@@ -1716,7 +1754,7 @@ func main() {
 				r.Count("no_crash_runs", 1)
 				r.Eval()
 				// (an operation that may be refused by the environment leaves the old state or the new one, like a killed one)
-				if fs := sc.check(sc.baseNew, sc.Op.Unpriv || sc.FaultErr != ""); len(fs) > 0 {
+				if fs := sc.check(sc.baseNew, sc.Op.Unpriv || sc.FaultErr != "" || sc.Op.FSizeLimit > 0); len(fs) > 0 {
 					report(sc, nil, fs, sc.baseNew, markedThreadExcerpt(tr, tid, 14), tf)
 				}
 			})
